@@ -34,9 +34,17 @@ pub struct MTrack {
     pub pred_hist: Vec<BoxF>,
     pub feat_hist: Vec<Option<Vec<f32>>>,
     /// stored appearance features as of the last physical snapshot (None = unknown)
+    /// `place` Live/Collected reflects the last physical snapshot
+    pub place_known: bool,
     pub gallery: Option<Vec<(Vec<f32>, f32)>>,
     /// updates since the last physical snapshot: (feature (padded), quality, must be collected)
     pub pending: Vec<(Option<Vec<f32>>, f32, bool)>,
+}
+
+impl MTrack {
+    pub fn in_tracker(&self) -> bool {
+        matches!(self.place, Place::Live | Place::Collected)
+    }
 }
 
 pub fn pad8(f: &[f32]) -> Vec<f32> {
@@ -90,8 +98,6 @@ struct Model<'a> {
     cfg: &'a TrkCfg,
     epochs: BTreeMap<u64, usize>,
     tracks: BTreeMap<u64, MTrack>,
-    counter: usize,
-    periodicity: usize,
     issued: BTreeSet<u64>,
     total_dets: u64,
     violations: Vec<Violation>,
@@ -127,26 +133,13 @@ impl<'a> Model<'a> {
         self.epoch(t.scene) > t.last_epoch + self.cfg.max_idle
     }
 
-    fn collect(&mut self) {
-        let ids: Vec<u64> = self
-            .tracks
-            .values()
-            .filter(|t| t.place == Place::Live && self.expired(t))
-            .map(|t| t.id)
-            .collect();
-        for id in ids {
-            self.tracks.get_mut(&id).unwrap().place = Place::Collected;
-        }
-    }
+    /// The model does NOT predict when the tracker physically moves expired tracks
+    /// to its wasted store (the property says that timing is unobservable, and a
+    /// change of it must not raise an alarm): physical placement is read from the
+    /// snapshots and only constrained (see check_phys).
+    fn collect(&mut self) {}
 
-    fn tick(&mut self) {
-        if self.counter == 0 {
-            self.collect();
-            self.counter = self.periodicity;
-        } else {
-            self.counter -= 1;
-        }
-    }
+    fn tick(&mut self) {}
 
     fn scene_call(&mut self, op: &str, opi: usize, scene: u64, dets: &[Det], recs: &[Rec]) {
         let e = self.epoch(scene) + 1;
@@ -190,8 +183,13 @@ impl<'a> Model<'a> {
         if !self.cfg.kind.is_visual() {
             self.refsort_check(op, opi, scene, e, dets, recs);
         } else {
-            self.visual_tie_filter(opi, scene, e, dets);
-            self.refvisual_check(op, opi, scene, e, dets, recs);
+            // RefVisual also decides whether the step could involve a tie
+            if !self.refvisual_check(op, opi, scene, e, dets, recs) {
+                self.stats.ambiguous_steps += 1;
+                if self.stats.first_ambiguous_op.is_none() {
+                    self.stats.first_ambiguous_op = Some(opi);
+                }
+            }
         }
         let shares = self.own_shares(dets);
         // a share within the margin of the collect threshold makes the gallery
@@ -207,7 +205,7 @@ impl<'a> Model<'a> {
                         continue;
                     }
                     let gap = e - mt.last_epoch;
-                    if mt.place != Place::Live {
+                    if mt.place == Place::HandedOut || mt.place == Place::Cleared {
                         self.v("C03", "dead-track-continued", op, "not-live",
                             format!("op {opi} scene {scene}: detection {i} continues track {} which is {:?}", r.id, mt.place));
                         continue;
@@ -272,6 +270,7 @@ impl<'a> Model<'a> {
                             length: 1,
                             last_epoch: e,
                             place: Place::Live,
+                            place_known: true,
                             last_pred: r.pred.clone(),
                             last_obs: r.obs.clone(),
                             custom: d.custom,
@@ -308,7 +307,7 @@ impl<'a> Model<'a> {
         let cand: Vec<&MTrack> = self
             .tracks
             .values()
-            .filter(|t| t.scene == scene && t.place == Place::Live && e - t.last_epoch <= self.cfg.max_idle)
+            .filter(|t| t.scene == scene && t.in_tracker() && e - t.last_epoch <= self.cfg.max_idle)
             .collect();
         let rts: Vec<RTrack> = cand
             .iter()
@@ -510,22 +509,22 @@ impl<'a> Model<'a> {
     /// RefVisual (C12): re-derive appearance claims, contests and the positional
     /// remainder from the observable galleries and assert the statement, not the
     /// implementation's incidental choices.
-    fn refvisual_check(&mut self, op: &str, opi: usize, scene: u64, e: usize, dets: &[Det], recs: &[Rec]) {
-        let Some(v) = self.cfg.visual.clone() else { return };
+    fn refvisual_check(&mut self, op: &str, opi: usize, scene: u64, e: usize, dets: &[Det], recs: &[Rec]) -> bool {
+        let Some(v) = self.cfg.visual.clone() else { return false };
         let cand: Vec<MTrack> = self
             .tracks
             .values()
-            .filter(|t| t.scene == scene && t.place == Place::Live && e - t.last_epoch <= self.cfg.max_idle)
+            .filter(|t| t.scene == scene && t.in_tracker() && e - t.last_epoch <= self.cfg.max_idle)
             .cloned()
             .collect();
         let amb = |s: &mut WalkStats| s.rv_ambiguous += 1;
         if dets.len() > 7 || cand.len() > 9 || cand.iter().any(|t| t.gallery.is_none() || !t.pending.is_empty()) {
             amb(&mut self.stats);
-            return;
+            return false;
         }
         if matches!(self.cfg.metric, PosMetric::Maha) && cand.iter().any(|t| t.kf.is_none()) {
             amb(&mut self.stats);
-            return;
+            return false;
         }
         let rts: Vec<RTrack> = cand
             .iter()
@@ -622,7 +621,7 @@ impl<'a> Model<'a> {
         }
         if near {
             amb(&mut self.stats);
-            return;
+            return false;
         }
         let mut claim = vec![vec![None::<f64>; k]; n];
         for i in 0..n {
@@ -644,7 +643,7 @@ impl<'a> Model<'a> {
                 for b in (a + 1)..cl.len() {
                     if (cl[a] - cl[b]).abs() < wm(cl[a], cl[b]) {
                         amb(&mut self.stats);
-                        return;
+                        return false;
                     }
                 }
             }
@@ -655,7 +654,7 @@ impl<'a> Model<'a> {
                 for b in (a + 1)..cl.len() {
                     if (cl[a] - cl[b]).abs() < wm(cl[a], cl[b]) {
                         amb(&mut self.stats);
-                        return;
+                        return false;
                     }
                 }
             }
@@ -671,7 +670,7 @@ impl<'a> Model<'a> {
                     self.v("C20", "attached-beyond-limit", op, "constraint-ignored",
                         format!("op {opi} scene {scene}: detection {i} attached to track {} at normalised distance {:.4} with epoch gap {} (limit {:?})",
                             cand[j].id, dist_in_2r(&boxes[i], &rts[j].pred), rts[j].gap, limit_for(&self.cfg.constraints, rts[j].gap)));
-                    return;
+                    return true;
                 }
             }
         }
@@ -689,7 +688,7 @@ impl<'a> Model<'a> {
                     None => {
                         self.v("C12", "visual-unsound", op, "visual-flag-without-existing-track",
                             format!("op {opi} scene {scene}: detection {i} reports visual voting but track {} is not a live candidate track", r.id));
-                        return;
+                        return true;
                     }
                     Some(j) => match claim[i][j] {
                         None => {
@@ -703,14 +702,14 @@ impl<'a> Model<'a> {
                             self.v("C12", "visual-unsound", op, why,
                                 format!("op {opi} scene {scene}: detection {i} attached to track {} by appearance without a valid claim ({why}; votes {} of {} needed, gallery {} of {} needed)",
                                     r.id, within[i][j].len(), v.min_votes, cand[j].gallery.as_ref().unwrap().len(), v.min_track_len));
-                            return;
+                            return true;
                         }
                         Some(w) => {
                             if heavier(j, w) {
                                 self.v("C12", "contest", op, "lighter-claimant-won",
                                     format!("op {opi} scene {scene}: detection {i} (weight {w:.5}) got track {} although a heavier claimant exists: {:?}",
                                         r.id, (0..n).map(|i2| claim[i2][j]).collect::<Vec<_>>()));
-                                return;
+                                return true;
                             }
                         }
                     },
@@ -720,7 +719,7 @@ impl<'a> Model<'a> {
                     if heavier(j, w) {
                         self.v("C12", "contest", op, "loser-attached-to-contested-track",
                             format!("op {opi} scene {scene}: detection {i} lost the appearance contest for track {} but is attached to it", r.id));
-                        return;
+                        return true;
                     }
                 }
             }
@@ -732,7 +731,7 @@ impl<'a> Model<'a> {
                         self.v("C12", "visual-incomplete", op, if on[i] == Some(jb) { "attached-but-not-reported-visual" } else { "winning-claim-ignored" },
                             format!("op {opi} scene {scene}: detection {i} holds the heaviest claim (weight {wb:.5}) on track {} and is its heaviest claimant, but the record is {:?}",
                                 cand[jb].id, r));
-                        return;
+                        return true;
                     }
                 } else {
                     self.stats.rv_losers += 1;
@@ -744,7 +743,7 @@ impl<'a> Model<'a> {
         let taken: Vec<usize> = (0..n).filter(|i| recs[*i].visual).filter_map(|i| on[i]).collect();
         let cols: Vec<usize> = (0..k).filter(|j| !taken.contains(j)).collect();
         if rows.is_empty() {
-            return;
+            return true;
         }
         let sub = Matrix {
             pairs: rows.iter().map(|i| cols.iter().map(|j| m.pairs[*i][*j].clone()).collect()).collect(),
@@ -756,7 +755,7 @@ impl<'a> Model<'a> {
         };
         let vd = analyse(&sub, cols.len());
         if vd.ambiguous {
-            return;
+            return false;
         }
         self.stats.rv_fallback_rows += rows.len() as u64;
         for (ri, i) in rows.iter().enumerate() {
@@ -769,22 +768,23 @@ impl<'a> Model<'a> {
                 self.v("C12", "fallback", op, "positional-remainder-not-optimal",
                     format!("op {opi} scene {scene}: detection {} has no appearance claim; positional optimum puts it on {:?}, the tracker on {:?} (tracks {:?}, taken by appearance {:?})",
                         i, expect.map(|j| cand[j].id), on[*i].map(|j| cand[j].id), cand.iter().map(|t| t.id).collect::<Vec<_>>(), taken.iter().map(|j| cand[*j].id).collect::<Vec<_>>()));
-                return;
+                return true;
             }
         }
+        true
     }
 
     fn refsort_check(&mut self, op: &str, opi: usize, scene: u64, e: usize, dets: &[Det], recs: &[Rec]) {
         let cand: Vec<RTrack> = self
             .tracks
             .values()
-            .filter(|t| t.scene == scene && t.place == Place::Live && e - t.last_epoch <= self.cfg.max_idle)
+            .filter(|t| t.scene == scene && t.in_tracker() && e - t.last_epoch <= self.cfg.max_idle)
             .map(|t| RTrack { id: t.id, gap: e - t.last_epoch, pred: t.last_pred.clone(), kf: t.kf.clone() })
             .collect();
         if self
             .tracks
             .values()
-            .any(|t| t.scene == scene && t.place == Place::Live && e - t.last_epoch > self.cfg.max_idle)
+            .any(|t| t.scene == scene && t.place == Place::Live && t.place_known && e - t.last_epoch > self.cfg.max_idle)
         {
             self.stats.expiry_while_physically_live += 1;
         }
@@ -875,24 +875,48 @@ impl<'a> Model<'a> {
                 self.check_gallery(op, opi, &ti);
             }
         }
-        // every track in exactly one place, physical places equal the model's
-        let live: BTreeSet<u64> = self.tracks.values().filter(|t| t.place == Place::Live).map(|t| t.id).collect();
-        let coll: BTreeSet<u64> = self.tracks.values().filter(|t| t.place == Place::Collected).map(|t| t.id).collect();
-        let plive: BTreeSet<u64> = p.live.keys().cloned().collect();
-        let pcoll: BTreeSet<u64> = p.wasted.keys().cloned().collect();
-        if live != plive {
-            let extra: Vec<_> = plive.difference(&live).collect();
-            let missing: Vec<_> = live.difference(&plive).collect();
-            self.v("C03", "place", op, if !missing.is_empty() { "live-track-missing" } else { "unexpected-live-track" },
-                format!("op {opi}: live store holds {:?}, model expects {:?} (missing {:?}, extra {:?})", plive, live, missing, extra));
-            return;
+        // every track in exactly one place; WHERE an expired track physically sits
+        // (live or wasted store) is the tracker's business, except that an
+        // unexpired track must be live and that tracks vanish only by clear_wasted
+        for id in p.live.keys().chain(p.wasted.keys()) {
+            match self.tracks.get(id) {
+                None => {
+                    self.v("C03", "place", op, "unknown-track-stored", format!("op {opi}: store holds track {id} that no result ever mentioned"));
+                    return;
+                }
+                Some(t) if !t.in_tracker() => {
+                    self.v("C03", "place", op, "dead-track-stored", format!("op {opi}: track {id} is stored again although it was already {:?}", t.place));
+                    return;
+                }
+                _ => {}
+            }
         }
-        if coll != pcoll {
-            let extra: Vec<_> = pcoll.difference(&coll).collect();
-            let missing: Vec<_> = coll.difference(&pcoll).collect();
-            self.v("C03", "place", op, if !missing.is_empty() { "collected-track-missing" } else { "unexpected-collected-track" },
-                format!("op {opi}: wasted store holds {:?}, model expects {:?} (missing {:?}, extra {:?})", pcoll, coll, missing, extra));
-            return;
+        let ids: Vec<u64> = self.tracks.values().filter(|t| t.in_tracker()).map(|t| t.id).collect();
+        for id in ids {
+            let in_live = p.live.contains_key(&id);
+            let in_wasted = p.wasted.contains_key(&id);
+            let mt = self.tracks[&id].clone();
+            let expired = self.expired(&mt);
+            if in_live && in_wasted {
+                self.v("C03", "place", op, "track-in-two-places", format!("op {opi}: track {id} is in the live and in the wasted store"));
+                return;
+            }
+            if !in_live && !in_wasted {
+                if op == "clear_wasted" && expired {
+                    self.tracks.get_mut(&id).unwrap().place = Place::Cleared;
+                    continue;
+                }
+                self.v("C03", "place", op, "track-lost", format!("op {opi}: track {id} (length {}, last epoch {}) is in neither store and was never handed out", mt.length, mt.last_epoch));
+                return;
+            }
+            if in_wasted && !expired {
+                self.v("C03", "place", op, "unexpired-track-collected",
+                    format!("op {opi}: track {id} (last epoch {}, scene epoch {}, max idle {}) sits in the wasted store although it has not expired", mt.last_epoch, self.epoch(mt.scene), self.cfg.max_idle));
+                return;
+            }
+            let t = self.tracks.get_mut(&id).unwrap();
+            t.place = if in_live { Place::Live } else { Place::Collected };
+            t.place_known = true;
         }
         for (id, ti) in p.live.iter().chain(p.wasted.iter()) {
             let mt = self.tracks[id].clone();
@@ -941,8 +965,6 @@ pub fn walk(case: &TrackerCase, hist: &History) -> Walk {
         cfg,
         epochs: BTreeMap::new(),
         tracks: BTreeMap::new(),
-        counter: 100,
-        periodicity: 100,
         issued: BTreeSet::new(),
         total_dets: 0,
         violations: vec![],
@@ -1004,7 +1026,7 @@ pub fn walk(case: &TrackerCase, hist: &History) -> Walk {
             }
             (TOp::Wasted, Res::Wasted(w)) => {
                 m.collect();
-                let expect: BTreeSet<u64> = m.tracks.values().filter(|t| t.place == Place::Collected).map(|t| t.id).collect();
+                let expect: BTreeSet<u64> = m.tracks.values().filter(|t| t.in_tracker() && m.expired(t)).map(|t| t.id).collect();
                 let mut got = BTreeSet::new();
                 for ti in w {
                     if !got.insert(ti.id) {
@@ -1054,7 +1076,7 @@ pub fn walk(case: &TrackerCase, hist: &History) -> Walk {
                 let expect: BTreeSet<u64> = m
                     .tracks
                     .values()
-                    .filter(|t| t.scene == *scene && t.place == Place::Live && !m.expired(t) && t.last_epoch != e)
+                    .filter(|t| t.scene == *scene && t.in_tracker() && !m.expired(t) && t.last_epoch != e)
                     .map(|t| t.id)
                     .collect();
                 let got: BTreeSet<u64> = rs.iter().map(|r| r.id).collect();
@@ -1095,36 +1117,40 @@ pub fn walk(case: &TrackerCase, hist: &History) -> Walk {
                 }
             }
             (TOp::ClearWasted, _) => {
-                for t in m.tracks.values_mut() {
-                    if t.place == Place::Collected {
-                        t.place = Place::Cleared;
-                    }
+                // which tracks disappear is read off the snapshot taken after this
+                // op (check_phys); without a snapshot nothing can be said any more
+                if step.phys.is_none() {
+                    break;
                 }
             }
-            (TOp::SetAutoWaste(p), _) => {
-                m.periodicity = *p;
-                m.counter = 0;
-            }
+            (TOp::SetAutoWaste(_), _) => {}
             (TOp::Epoch { scene }, Res::Epoch(e)) => {
                 if *e != m.epoch(*scene) {
                     m.v("C03", "epoch", kind, "current-epoch", format!("op {opi}: current_epoch({scene}) = {e}, model {}", m.epoch(*scene)));
                 }
             }
             (TOp::Stats, Res::Stats { active, wasted }) => {
-                let mut ea = vec![0usize; cfg.shards];
-                let mut ew = vec![0usize; cfg.shards];
-                for t in m.tracks.values() {
-                    match t.place {
-                        Place::Live => ea[(t.id as usize) % cfg.shards] += 1,
-                        Place::Collected => ew[(t.id as usize) % cfg.shards] += 1,
-                        _ => {}
+                // the statistics must report what the stores hold right now, shard by shard
+                if let Some(p) = &step.phys {
+                    let mut ea = vec![0usize; cfg.shards];
+                    let mut ew = vec![0usize; cfg.shards];
+                    for id in p.live.keys() {
+                        ea[(*id as usize) % cfg.shards] += 1;
+                    }
+                    for id in p.wasted.keys() {
+                        ew[(*id as usize) % cfg.shards] += 1;
+                    }
+                    if *active != ea {
+                        m.v("C03", "stats", kind, "active", format!("op {opi}: active_shard_stats {:?}, live store holds {:?}", active, ea));
+                    }
+                    if *wasted != ew {
+                        m.v("C03", "stats", kind, "wasted", format!("op {opi}: wasted_shard_stats {:?}, wasted store holds {:?}", wasted, ew));
                     }
                 }
-                if *active != ea {
-                    m.v("C03", "stats", kind, "active", format!("op {opi}: active_shard_stats {:?}, model {:?}", active, ea));
-                }
-                if *wasted != ew {
-                    m.v("C03", "stats", kind, "wasted", format!("op {opi}: wasted_shard_stats {:?}, model {:?}", wasted, ew));
+                let total: usize = active.iter().sum::<usize>() + wasted.iter().sum::<usize>();
+                let alive = m.tracks.values().filter(|t| t.in_tracker()).count();
+                if total != alive && step.phys.is_some() {
+                    m.v("C03", "stats", kind, "total", format!("op {opi}: statistics account for {total} tracks, {alive} are neither handed out nor cleared"));
                 }
             }
             (o, r) => {
